@@ -597,6 +597,35 @@ func runCase(c *kit.Ctx, i int, name string) {
 		c.Count("stale_xr_cache_syncs", 1)
 	}
 
+	// a fifth sync: another writer (the XR controller through a plain update, kubectl, a ToComposite
+	// patch) has meanwhile set the very field the claim owns to a value of its own on the XR, and the
+	// user edits that field on the claim once more. The claim's user-defined fields reach the XR.
+	{
+		xrS := &unstructured.Unstructured{Object: findXR()}
+		for f := range t.Edit {
+			_ = unstructured.SetNestedField(xrS.Object, "written-on-the-xr-by-someone-else", "spec", f)
+		}
+		if err := w.Client("xrctl").Update(context.Background(), xrS); err == nil {
+			cmS := &unstructured.Unstructured{Object: w.GetObj(ckey)}
+			want := fmt.Sprintf("claim-edit-five-%d", i%7)
+			for f := range t.Edit {
+				_ = unstructured.SetNestedField(cmS.Object, want, "spec", f)
+			}
+			if err := u.Update(context.Background(), cmS); err == nil {
+				for n := 0; n < 3; n++ {
+					_, _, _ = ce.Reconcile("ns1", "c1")
+				}
+				got := specOf(findXR())
+				for f := range t.Edit {
+					if !reflect.DeepEqual(got[f], any(want)) {
+						k.fail("claim-field-not-propagated:after-foreign-write-on-xr", fmt.Sprintf("claim spec.%s is %q but the XR still has %v after three syncs (another writer had set the field on the XR in between)", f, want, kit.JSON(got[f])))
+					}
+				}
+				c.Count("syncs_after_foreign_write_on_xr", 1)
+			}
+		}
+	}
+
 	nestedUser, machinery := 0, 0
 	for f, v := range specOf(t.Claim) {
 		if allMachinery[f] {
